@@ -5,17 +5,22 @@
 # these runs describe the mutated copy: re-run the checks on /repo afterwards.
 export GOFLAGS=-mod=mod GOPROXY=off GOSUMDB=off GOTOOLCHAIN=local
 M=/var/tmp/lvc-matrix/repo
-mkdir -p $M
+B=/var/tmp/lvc-matrix/base
+mkdir -p $M $B
+# snapshot of /repo and of the checker, so that work going on in /repo or /verif meanwhile does not
+# leak into the matrix
+rsync -a --delete --exclude .git /repo/ $B/
+cp /verif/bin/lvc /var/tmp/lvc-matrix/lvc
 IDS=$(python3 -c "import json;print(' '.join(c['property_id'] for c in json.load(open('/verif/MANIFEST.json'))['checks']))")
 echo "{" > /verif/seeded/MATRIX.json.tmp
 first=1
 for d in $(ls /verif/seeded | grep -v MATRIX); do
   [ -f /verif/seeded/$d/patch.diff ] || continue
-  rsync -a --delete --exclude .git /repo/ $M/
+  rsync -a --delete $B/ $M/
   (cd $M && patch -p1 -s < /verif/seeded/$d/patch.diff) || { echo "patch failed for $d" >&2; continue; }
   caught=""
   for id in $IDS; do
-    out=$(cd /verif && timeout 600 ./bin/lvc check $id --repo $M 2>&1)
+    out=$(cd /verif && timeout 600 /var/tmp/lvc-matrix/lvc check $id --repo $M 2>&1)
     if [ $? -ne 0 ]; then
       ob=$(echo "$out" | grep -m1 "^VIOLATION" | sed 's/.*obligation=\([^ ]*\).*/\1/')
       caught="$caught\"$id: $ob\","
